@@ -30,6 +30,7 @@ LEVEL_TEXT = ("Generated modules with 1-6 documented functions and methods whose
               "order minus star-import lines, with each want as a '# doctest want:' comment block right after the statement "
               "it belongs to. The CLI form is compared with the in-process text on a sample. Randomised exploration with "
               "shrinking.")
+LEVEL_ADDED = ("A third of the cases run with analysis='dynamic'; half of the modules get a subclass that overrides documented methods without documenting them (it holds no doctest).")
 LEVEL_NOTE = ("Trusted: the generator's per-line bookkeeping (shared with C01/C18). An optional 'from <module> import ...' "
               "header line (names pyflakes reports undefined) is accepted. Empty lines that stem from bare '...' terminators "
               "may be absent. Two doctests of one callable get the same function name; only the count and order are asserted. "
